@@ -68,6 +68,13 @@ def stepLine (s : State) (op obs : String) : State × String :=
       let d := match s.ref with
         | some r => r
         | none => digestsOf os
+      -- documented exception: archive_read_disk changes the process-wide working directory (fchdir); two or
+      -- more disk readers running concurrently may disturb one another, so their digests are not predicted
+      let od := digestsOf os
+      let manyDr := (s.kinds.filter (· == "dr")).length ≥ 2
+      let d := if manyDr && od.length == d.length then
+          (List.zip s.kinds (List.zip d od)).map (fun x => if x.1 == "dr" then x.2.2 else x.2.1)
+        else d
       (s, "d " ++ " ".intercalate d ++ s!" races={rs} heap=0 other=0 crashes=0 ext={ext}")
   | _ => (s, "bad-op")
 
